@@ -1,24 +1,31 @@
 /-
-A small-step-free, fuel-indexed big-step semantics of the fragment of Python that pams' decision
-code is written in ("mini-Python").  It is the *meaning* given to the abstract syntax trees that
-the translator (harness/py2lean.py) dumps from /repo's current sources into `PamsGen/Code.lean`:
-the translator is a serializer of `ast` nodes and carries no semantics of its own.
+A big-step semantics of the fragment of Python that pams' decision code is written in
+("mini-Python").  It is the *meaning* given to the abstract syntax trees which the translator
+(harness/py2lean.py) dumps from /repo's current sources into `PamsGen/Code.lean`: the translator
+is a serializer of `ast` nodes and carries no semantics of its own.
 
-Values: `None`, `bool`, `int` (unbounded), `float` (an abstract numeric type `K` with the
-operations of the class `PyNum`: IEEE doubles in the driver, an ordered field in the theorems),
-`str`, references to heap objects (identity + mutable fields), immutable sequences (list / tuple /
-`dict.values()`), dictionaries (parallel key / value lists, insertion ordered) and local closures.
+The semantics is *symbolic*: numbers are terms (`ITerm` for `int`, `NTerm` for `float`, `BTerm`
+for `bool`) over atoms, a run produces a decision tree (`Tree`) whose inner nodes are the boolean
+terms the program branched on, and the meaning of a run under a valuation `ρ` of the atoms is the
+leaf reached by `Tree.denote ρ`.  With literal inputs every branch condition folds to a literal
+and the tree is a single leaf — the ordinary concrete execution (this is what the driver runs and
+what is compared with CPython); with atoms as inputs the same definition is a symbolic execution
+whose paths can be enumerated by the kernel (`Tree.paths`, closed terms), which is what makes
+"for all inputs" theorems about translated functions cheap: `Tree.denote_of_paths`.
+
+Values: `None`, `bool`, `int` (unbounded), `float` (terms over an abstract type `K` with the
+operations of `PyNum`: IEEE doubles in the driver, an ordered field in the theorems), `str`,
+references to heap objects (identity + mutable fields), immutable sequences (list / tuple /
+`dict.values()`), dictionaries (parallel key / value lists, insertion ordered), local closures.
 
 State: a heap `address → field → value` (attribute reads / writes go through it, so aliasing is
 respected for objects) and the log of *extern* calls — calls whose callee is not among the
 translated functions are answered by an oracle `Ext` that may read and change the state; they are
-recorded in order, so "which calls happen, in which order, with which arguments" is part of the
-meaning.  Containers are values (a `dict` stored in a field is copied on read and written back on
-item assignment): aliasing between two names for one *container* is not modelled.
+recorded in order.  Containers are values (a `dict` stored in a field is copied on read and written
+back on item assignment): aliasing between two names for one *container* is not modelled.
 
-Every recursive call is on a smaller fuel, so the definition is structural; fuel bounds the
-nesting depth + sequence length, and `while` loops consume one unit per iteration.  Running out of
-fuel is an error value (`Err.fuel`), never a silent default.
+Every recursive call is on a smaller fuel, so the definition is structural; running out of fuel is
+an error value (`Err.fuel`), never a silent default.
 -/
 import PamsModel.Arith
 
@@ -34,6 +41,187 @@ class PyNum (K : Type) extends Arith K where
   exp : K → K
   log : K → K
   sqrt : K → K
+
+/-! ### symbolic numbers -/
+
+mutual
+inductive ITerm where
+  | lit (i : Int)
+  | atom (k : Nat)
+  | add (a b : ITerm)
+  | sub (a b : ITerm)
+  | mul (a b : ITerm)
+  | neg (a : ITerm)
+  | fdiv (a b : ITerm)
+  | fmod (a b : ITerm)
+  | ofBool (b : BTerm)
+  | floor (x : NTerm)
+  | ceil (x : NTerm)
+inductive NTerm where
+  | atom (k : Nat)
+  | ofInt (a : ITerm)
+  | add (a b : NTerm)
+  | sub (a b : NTerm)
+  | mul (a b : NTerm)
+  | div (a b : NTerm)
+  | neg (a : NTerm)
+  | fmod (a b : NTerm)
+  | exp (a : NTerm)
+  | log (a : NTerm)
+  | sqrt (a : NTerm)
+inductive BTerm where
+  | lit (b : Bool)
+  | atom (k : Nat)
+  | not (b : BTerm)
+  | ilt (a b : ITerm)
+  | ile (a b : ITerm)
+  | ieq (a b : ITerm)
+  | nlt (a b : NTerm)
+  | nle (a b : NTerm)
+  | neq (a b : NTerm)
+end
+
+/-- a valuation of the atoms -/
+structure Rho (K : Type) where
+  i : Nat → Int
+  n : Nat → K
+  b : Nat → Bool
+
+mutual
+def ITerm.eval {K : Type} [PyNum K] (ρ : Rho K) : ITerm → Int
+  | .lit i => i
+  | .atom k => ρ.i k
+  | .add a b => a.eval ρ + b.eval ρ
+  | .sub a b => a.eval ρ - b.eval ρ
+  | .mul a b => a.eval ρ * b.eval ρ
+  | .neg a => - a.eval ρ
+  | .fdiv a b => Int.fdiv (a.eval ρ) (b.eval ρ)
+  | .fmod a b => Int.fmod (a.eval ρ) (b.eval ρ)
+  | .ofBool b => if b.eval ρ then 1 else 0
+  | .floor x => PyNum.floor (x.eval ρ)
+  | .ceil x => PyNum.ceil (x.eval ρ)
+def NTerm.eval {K : Type} [PyNum K] (ρ : Rho K) : NTerm → K
+  | .atom k => ρ.n k
+  | .ofInt a => PyNum.ofInt (a.eval ρ)
+  | .add a b => a.eval ρ + b.eval ρ
+  | .sub a b => a.eval ρ - b.eval ρ
+  | .mul a b => a.eval ρ * b.eval ρ
+  | .div a b => a.eval ρ / b.eval ρ
+  | .neg a => - a.eval ρ
+  | .fmod a b => PyNum.fmod (a.eval ρ) (b.eval ρ)
+  | .exp a => PyNum.exp (a.eval ρ)
+  | .log a => PyNum.log (a.eval ρ)
+  | .sqrt a => PyNum.sqrt (a.eval ρ)
+def BTerm.eval {K : Type} [PyNum K] (ρ : Rho K) : BTerm → Bool
+  | .lit b => b
+  | .atom k => ρ.b k
+  | .not b => !b.eval ρ
+  | .ilt a b => decide (a.eval ρ < b.eval ρ)
+  | .ile a b => decide (a.eval ρ ≤ b.eval ρ)
+  | .ieq a b => decide (a.eval ρ = b.eval ρ)
+  | .nlt a b => decide (a.eval ρ < b.eval ρ)
+  | .nle a b => decide (a.eval ρ ≤ b.eval ρ)
+  | .neq a b => PyNum.beq (a.eval ρ) (b.eval ρ)
+end
+
+/-! smart constructors: literal folding (so that concrete runs never branch) -/
+def ITerm.mkAdd : ITerm → ITerm → ITerm
+  | .lit a, .lit b => .lit (a + b)
+  | a, b => .add a b
+def ITerm.mkSub : ITerm → ITerm → ITerm
+  | .lit a, .lit b => .lit (a - b)
+  | a, b => .sub a b
+def ITerm.mkMul : ITerm → ITerm → ITerm
+  | .lit a, .lit b => .lit (a * b)
+  | a, b => .mul a b
+def ITerm.mkNeg : ITerm → ITerm
+  | .lit a => .lit (-a)
+  | a => .neg a
+def ITerm.mkFdiv : ITerm → ITerm → ITerm
+  | .lit a, .lit b => .lit (Int.fdiv a b)
+  | a, b => .fdiv a b
+def ITerm.mkFmod : ITerm → ITerm → ITerm
+  | .lit a, .lit b => .lit (Int.fmod a b)
+  | a, b => .fmod a b
+def ITerm.mkOfBool : BTerm → ITerm
+  | .lit b => .lit (if b then 1 else 0)
+  | b => .ofBool b
+def BTerm.mkNot : BTerm → BTerm
+  | .lit b => .lit (!b)
+  | .not b => b
+  | b => .not b
+def BTerm.mkIlt : ITerm → ITerm → BTerm
+  | .lit a, .lit b => .lit (decide (a < b))
+  | a, b => .ilt a b
+def BTerm.mkIle : ITerm → ITerm → BTerm
+  | .lit a, .lit b => .lit (decide (a ≤ b))
+  | a, b => .ile a b
+def BTerm.mkIeq : ITerm → ITerm → BTerm
+  | .lit a, .lit b => .lit (decide (a = b))
+  | a, b => .ieq a b
+
+/-! ### decision trees -/
+
+inductive Tree (α : Type) where
+  | leaf (a : α)
+  | node (c : BTerm) (t f : Unit → Tree α)
+
+namespace Tree
+variable {α β : Type}
+
+def bind : Tree α → (α → Tree β) → Tree β
+  | leaf a, g => g a
+  | node c t f, g => node c (fun u => (t u).bind g) (fun u => (f u).bind g)
+
+def map (g : α → β) : Tree α → Tree β
+  | leaf a => leaf (g a)
+  | node c t f => node c (fun u => (t u).map g) (fun u => (f u).map g)
+
+/-- the leaf reached under a valuation -/
+def denote {K : Type} [PyNum K] (ρ : Rho K) : Tree α → α
+  | leaf a => a
+  | node c t f => if c.eval ρ then (t ()).denote ρ else (f ()).denote ρ
+
+/-- all root-to-leaf paths: the branch conditions with the side taken, and the leaf -/
+def paths : Tree α → List (List (BTerm × Bool) × α)
+  | leaf a => [([], a)]
+  | node c t f =>
+    ((t ()).paths.map (fun p => ((c, true) :: p.1, p.2))) ++
+    ((f ()).paths.map (fun p => ((c, false) :: p.1, p.2)))
+
+/-- a property of the leaf reached follows from the same property of every path whose conditions
+hold -/
+theorem denote_of_paths {K : Type} [PyNum K] (ρ : Rho K) (Q : α → Prop) :
+    ∀ (t : Tree α), (∀ p ∈ t.paths, (∀ cb ∈ p.1, cb.1.eval ρ = cb.2) → Q p.2) → Q (t.denote ρ)
+  | leaf a, h => by
+    simpa [denote] using h ([], a) (by simp [paths]) (by simp)
+  | node c t f, h => by
+    unfold denote
+    split
+    · rename_i hc
+      refine denote_of_paths ρ Q (t ()) ?_
+      intro p hp hq
+      refine h ((c, true) :: p.1, p.2) ?_ ?_
+      · simp only [paths, List.mem_append, List.mem_map]
+        exact Or.inl ⟨p, hp, rfl⟩
+      · intro cb hcb
+        rcases List.mem_cons.1 hcb with rfl | hcb
+        · simpa using hc
+        · exact hq cb hcb
+    · rename_i hc
+      refine denote_of_paths ρ Q (f ()) ?_
+      intro p hp hq
+      refine h ((c, false) :: p.1, p.2) ?_ ?_
+      · simp only [paths, List.mem_append, List.mem_map]
+        exact Or.inr ⟨p, hp, rfl⟩
+      · intro cb hcb
+        rcases List.mem_cons.1 hcb with rfl | hcb
+        · simpa using hc
+        · exact hq cb hcb
+
+end Tree
+
+/-! ### syntax -/
 
 inductive BinOp | add | sub | mul | div | floordiv | mod | pow
 deriving Repr, DecidableEq
@@ -86,15 +274,17 @@ structure FunDef where
   isProperty : Bool := false
 deriving Repr
 
-inductive Val (K : Type) where
+/-! ### values, state, monad -/
+
+inductive Val where
   | none
-  | bool (b : Bool)
-  | int (i : Int)
-  | num (x : K)
+  | bool (b : BTerm)
+  | int (i : ITerm)
+  | num (x : NTerm)
   | str (s : String)
   | ref (a : Nat)
-  | list (l : List (Val K))
-  | dict (ks vs : List (Val K))
+  | list (l : List Val)
+  | dict (ks vs : List Val)
   | clo (f : FunDef)
 
 inductive Err where
@@ -104,44 +294,58 @@ inductive Err where
   | unbound (x : String)
 deriving Repr, DecidableEq
 
-inductive Flow (K : Type) where
+inductive Flow where
   | normal
-  | ret (v : Val K)
+  | ret (v : Val)
   | brk
   | cont
 
-abbrev Vars (K : Type) := List (String × Val K)
+abbrev Vars := List (String × Val)
 
-structure Call (K : Type) where
-  recv : Val K
+structure Call where
+  recv : Val
   fn : String
-  args : List (Val K)
+  args : List Val
 
-structure St (K : Type) where
-  heap : Nat → String → Option (Val K)
+structure St where
+  heap : Nat → String → Option Val
   /-- extern calls performed so far, most recent first -/
-  calls : List (Call K)
+  calls : List Call
 
 /-- oracle for calls that leave the translated fragment -/
-abbrev Ext (K : Type) := St K → Val K → String → List (Val K) → Option (Val K × St K)
+abbrev Ext := St → Val → String → List Val → Option (Val × St)
 
-structure Env (K : Type) where
+structure Env where
   prog : List (String × FunDef)
-  globals : String → Option (Val K)
-  ext : Ext K
+  globals : String → Option Val
+  ext : Ext
 
-abbrev M (α : Type) := Except Err α
+/-- computations: a decision tree of results -/
+def M (α : Type) := Tree (Except Err α)
 
-variable {K : Type} [PyNum K]
+namespace M
+variable {α β : Type}
+def pure (a : α) : M α := Tree.leaf (.ok a)
+def fail (e : Err) : M α := Tree.leaf (.error e)
+def bind (x : M α) (g : α → M β) : M β :=
+  Tree.bind x (fun r => match r with | .ok a => g a | .error e => Tree.leaf (.error e))
+instance : Monad M where
+  pure := M.pure
+  bind := M.bind
+/-- branch on a boolean term; literal conditions do not create a node -/
+def branch : BTerm → M Bool
+  | .lit b => M.pure b
+  | c => Tree.node c (fun _ => M.pure true) (fun _ => M.pure false)
+end M
 
-def St.set (st : St K) (a : Nat) (f : String) (v : Val K) : St K :=
+def St.set (st : St) (a : Nat) (f : String) (v : Val) : St :=
   { st with heap := fun a' f' => if a' = a ∧ f' = f then some v else st.heap a' f' }
 
-def lookupVar (x : String) : Vars K → Option (Val K)
+def lookupVar (x : String) : Vars → Option Val
   | [] => Option.none
   | (y, v) :: rest => if x = y then some v else lookupVar x rest
 
-def setVar (x : String) (v : Val K) : Vars K → Vars K
+def setVar (x : String) (v : Val) : Vars → Vars
   | [] => [(x, v)]
   | (y, w) :: rest => if x = y then (y, v) :: rest else (y, w) :: setVar x v rest
 
@@ -149,226 +353,250 @@ def lookupFun (x : String) : List (String × FunDef) → Option FunDef
   | [] => Option.none
   | (y, f) :: rest => if x = y then some f else lookupFun x rest
 
-def truthy : Val K → Bool
-  | .none => false
+/-- truthiness, as a boolean term -/
+def truthyT : Val → BTerm
+  | .none => .lit false
   | .bool b => b
-  | .int i => i ≠ 0
-  | .num x => !(PyNum.beq x (PyNum.ofInt 0))
-  | .str s => s ≠ ""
-  | .ref _ => true
-  | .list l => !l.isEmpty
-  | .dict ks _ => !ks.isEmpty
-  | .clo _ => true
+  | .int i => (BTerm.mkIeq i (.lit 0)).mkNot
+  | .num x => (BTerm.neq x (.ofInt (.lit 0))).mkNot
+  | .str s => .lit (s ≠ "")
+  | .ref _ => .lit true
+  | .list l => .lit (!l.isEmpty)
+  | .dict ks _ => .lit (!ks.isEmpty)
+  | .clo _ => .lit true
+
+def truthy (v : Val) : M Bool := M.branch (truthyT v)
 
 /-- the float a numeric value stands for -/
-def asNum : Val K → Option K
+def asNum : Val → Option NTerm
   | .num x => some x
-  | .int i => some (PyNum.ofInt i)
-  | .bool b => some (PyNum.ofInt (if b then 1 else 0))
+  | .int i => some (.ofInt i)
+  | .bool b => some (.ofInt (ITerm.mkOfBool b))
   | _ => Option.none
 
-def asInt : Val K → Option Int
+def asInt : Val → Option ITerm
   | .int i => some i
-  | .bool b => some (if b then 1 else 0)
+  | .bool b => some (ITerm.mkOfBool b)
   | _ => Option.none
 
-/-- `==` on values without a user-defined `__eq__` -/
-def primEq : Val K → Val K → M Bool
-  | .none, .none => pure true
-  | .str a, .str b => pure (a = b)
-  | .ref a, .ref b => pure (a = b)
-  | .num a, .num b => pure (PyNum.beq a b)
-  | .num a, .int b => pure (PyNum.beq a (PyNum.ofInt b))
-  | .int a, .num b => pure (PyNum.beq (PyNum.ofInt a) b)
-  | .num a, .bool b => pure (PyNum.beq a (PyNum.ofInt (if b then 1 else 0)))
-  | .bool a, .num b => pure (PyNum.beq (PyNum.ofInt (if a then 1 else 0)) b)
-  | .int a, .int b => pure (a = b)
-  | .int a, .bool b => pure (a = (if b then 1 else 0))
-  | .bool a, .int b => pure ((if a then 1 else 0) = b)
-  | .bool a, .bool b => pure (a = b)
-  | .list _, .list _ => throw (.unsupported "== on sequences")
-  | .dict _ _, .dict _ _ => throw (.unsupported "== on dicts")
-  | .clo _, _ => throw (.unsupported "== on functions")
-  | _, .clo _ => throw (.unsupported "== on functions")
-  | _, _ => pure false
+/-- `==` on values without a user-defined `__eq__` (a boolean term) -/
+def primEq : Val → Val → Except Err BTerm
+  | .none, .none => .ok (.lit true)
+  | .str a, .str b => .ok (.lit (a = b))
+  | .ref a, .ref b => .ok (.lit (a = b))
+  | .num a, .num b => .ok (.neq a b)
+  | .num a, .int b => .ok (.neq a (.ofInt b))
+  | .int a, .num b => .ok (.neq (.ofInt a) b)
+  | .num a, .bool b => .ok (.neq a (.ofInt (ITerm.mkOfBool b)))
+  | .bool a, .num b => .ok (.neq (.ofInt (ITerm.mkOfBool a)) b)
+  | .int a, .int b => .ok (BTerm.mkIeq a b)
+  | .int a, .bool b => .ok (BTerm.mkIeq a (ITerm.mkOfBool b))
+  | .bool a, .int b => .ok (BTerm.mkIeq (ITerm.mkOfBool a) b)
+  | .bool a, .bool b => .ok (BTerm.mkIeq (ITerm.mkOfBool a) (ITerm.mkOfBool b))
+  | .list _, .list _ => .error (.unsupported "== on sequences")
+  | .dict _ _, .dict _ _ => .error (.unsupported "== on dicts")
+  | .clo _, _ => .error (.unsupported "== on functions")
+  | _, .clo _ => .error (.unsupported "== on functions")
+  | _, _ => .ok (.lit false)
 
 /-- `<` on numbers (anything else is a `TypeError` in Python) -/
-def primLt (a b : Val K) : M Bool :=
+def primLt (a b : Val) : Except Err BTerm :=
   match asInt a, asInt b with
-  | some x, some y => pure (decide (x < y))
+  | some x, some y => .ok (BTerm.mkIlt x y)
   | _, _ =>
     match asNum a, asNum b with
-    | some x, some y => pure (decide (x < y))
+    | some x, some y => .ok (.nlt x y)
     | _, _ =>
       match a, b with
-      | .str _, .str _ => throw (.unsupported "< on str")
-      | _, _ => throw (.raise "TypeError")
+      | .str _, .str _ => .error (.unsupported "< on str")
+      | _, _ => .error (.raise "TypeError")
 
-def primLe (a b : Val K) : M Bool :=
+def primLe (a b : Val) : Except Err BTerm :=
   match asInt a, asInt b with
-  | some x, some y => pure (decide (x ≤ y))
+  | some x, some y => .ok (BTerm.mkIle x y)
   | _, _ =>
     match asNum a, asNum b with
-    | some x, some y => pure (decide (x ≤ y))
+    | some x, some y => .ok (.nle x y)
     | _, _ =>
       match a, b with
-      | .str _, .str _ => throw (.unsupported "<= on str")
-      | _, _ => throw (.raise "TypeError")
+      | .str _, .str _ => .error (.unsupported "<= on str")
+      | _, _ => .error (.raise "TypeError")
 
 /-- `is` -/
-def primIs : Val K → Val K → M Bool
-  | .none, .none => pure true
-  | .ref a, .ref b => pure (a = b)
-  | .bool a, .bool b => pure (a = b)
-  | .none, _ => pure false
-  | _, .none => pure false
-  | .ref _, _ => pure false
-  | _, .ref _ => pure false
-  | .bool _, _ => pure false
-  | _, .bool _ => pure false
-  | _, _ => throw (.unsupported "is on unboxed values")
+def primIs : Val → Val → Except Err BTerm
+  | .none, .none => .ok (.lit true)
+  | .ref a, .ref b => .ok (.lit (a = b))
+  | .bool a, .bool b => .ok (BTerm.mkIeq (ITerm.mkOfBool a) (ITerm.mkOfBool b))
+  | .none, _ => .ok (.lit false)
+  | _, .none => .ok (.lit false)
+  | .ref _, _ => .ok (.lit false)
+  | _, .ref _ => .ok (.lit false)
+  | .bool _, _ => .ok (.lit false)
+  | _, .bool _ => .ok (.lit false)
+  | _, _ => .error (.unsupported "is on unboxed values")
 
-def arith (op : BinOp) (a b : Val K) : M (Val K) :=
+def liftE {α : Type} : Except Err α → M α
+  | .ok a => M.pure a
+  | .error e => M.fail e
+
+def arith (op : BinOp) (a b : Val) : M Val :=
   match op with
   | .add | .sub | .mul =>
     (match asInt a, asInt b with
      | some x, some y =>
-       pure (.int (match op with | .add => x + y | .sub => x - y | _ => x * y))
+       M.pure (.int (match op with | .add => ITerm.mkAdd x y | .sub => ITerm.mkSub x y | _ => ITerm.mkMul x y))
      | _, _ =>
        match asNum a, asNum b with
        | some x, some y =>
-         pure (.num (match op with | .add => x + y | .sub => x - y | _ => x * y))
+         M.pure (.num (match op with | .add => .add x y | .sub => .sub x y | _ => .mul x y))
        | _, _ =>
          match op, a, b with
-         | .add, .list x, .list y => pure (.list (x ++ y))
-         | _, _, _ => throw (.raise "TypeError"))
+         | .add, .list x, .list y => M.pure (.list (x ++ y))
+         | _, _, _ => M.fail (.raise "TypeError"))
   | .div =>
     (match asNum a, asNum b with
-     | some x, some y =>
-       if PyNum.beq y (PyNum.ofInt 0) then throw (.raise "ZeroDivisionError") else pure (.num (x / y))
-     | _, _ => throw (.raise "TypeError"))
+     | some x, some y => do
+       if (← M.branch (.neq y (.ofInt (.lit 0)))) then M.fail (.raise "ZeroDivisionError")
+       else M.pure (.num (.div x y))
+     | _, _ => M.fail (.raise "TypeError"))
   | .floordiv =>
     (match asInt a, asInt b with
-     | some x, some y => if y = 0 then throw (.raise "ZeroDivisionError") else pure (.int (Int.fdiv x y))
-     | _, _ => throw (.unsupported "// on floats"))
+     | some x, some y => do
+       if (← M.branch (BTerm.mkIeq y (.lit 0))) then M.fail (.raise "ZeroDivisionError")
+       else M.pure (.int (ITerm.mkFdiv x y))
+     | _, _ => M.fail (.unsupported "// on floats"))
   | .mod =>
     (match asInt a, asInt b with
-     | some x, some y => if y = 0 then throw (.raise "ZeroDivisionError") else pure (.int (Int.fmod x y))
+     | some x, some y => do
+       if (← M.branch (BTerm.mkIeq y (.lit 0))) then M.fail (.raise "ZeroDivisionError")
+       else M.pure (.int (ITerm.mkFmod x y))
      | _, _ =>
        match asNum a, asNum b with
-       | some x, some y =>
-         if PyNum.beq y (PyNum.ofInt 0) then throw (.raise "ZeroDivisionError") else pure (.num (PyNum.fmod x y))
-       | _, _ => throw (.raise "TypeError"))
-  | .pow => throw (.unsupported "**")
+       | some x, some y => do
+         if (← M.branch (.neq y (.ofInt (.lit 0)))) then M.fail (.raise "ZeroDivisionError")
+         else M.pure (.num (.fmod x y))
+       | _, _ => M.fail (.raise "TypeError"))
+  | .pow => M.fail (.unsupported "**")
 
 /-- membership `x in container` by identity-or-primitive-equality -/
-def memList (x : Val K) : List (Val K) → M Bool
-  | [] => pure false
+def memList (x : Val) : List Val → M Bool
+  | [] => M.pure false
   | y :: ys => do
-    if (← primEq x y) then pure true else memList x ys
+    let c ← liftE (primEq x y)
+    if (← M.branch c) then M.pure true else memList x ys
 
-def dictGet (k : Val K) : List (Val K) → List (Val K) → M (Option (Val K))
+def dictGet (k : Val) : List Val → List Val → M (Option Val)
   | y :: ys, v :: vs => do
-    if (← primEq k y) then pure (some v) else dictGet k ys vs
-  | _, _ => pure Option.none
+    let c ← liftE (primEq k y)
+    if (← M.branch c) then M.pure (some v) else dictGet k ys vs
+  | _, _ => M.pure Option.none
 
-def dictSet (k v : Val K) : List (Val K) → List (Val K) → M (List (Val K) × List (Val K))
+def dictSet (k v : Val) : List Val → List Val → M (List Val × List Val)
   | y :: ys, w :: ws => do
-    if (← primEq k y) then pure (y :: ys, v :: ws)
+    let c ← liftE (primEq k y)
+    if (← M.branch c) then M.pure (y :: ys, v :: ws)
     else do
       let (ks, vs) ← dictSet k v ys ws
-      pure (y :: ks, w :: vs)
-  | _, _ => pure ([k], [v])
+      M.pure (y :: ks, w :: vs)
+  | _, _ => M.pure ([k], [v])
 
-def zipPairs : List (Val K) → List (Val K) → List (Val K)
+def zipPairs : List Val → List Val → List Val
   | k :: ks, v :: vs => .list [k, v] :: zipPairs ks vs
   | _, _ => []
 
-def listIndex (l : List (Val K)) (i : Int) : M (Val K) :=
+def listIndex (l : List Val) (i : Int) : M Val :=
   let j : Int := if i < 0 then i + l.length else i
-  if j < 0 then throw (.raise "IndexError") else
+  if j < 0 then M.fail (.raise "IndexError") else
   match l[j.toNat]? with
-  | some v => pure v
-  | Option.none => throw (.raise "IndexError")
+  | some v => M.pure v
+  | Option.none => M.fail (.raise "IndexError")
 
-def numAbs (v : Val K) : M (Val K) :=
+def numAbs (v : Val) : M Val :=
   match v with
-  | .int i => pure (.int (if i < 0 then -i else i))
-  | .bool b => pure (.int (if b then 1 else 0))
-  | .num x => pure (.num (Arith.abs x))
-  | _ => throw (.raise "TypeError")
+  | .int i => do
+    if (← M.branch (BTerm.mkIlt i (.lit 0))) then M.pure (.int (ITerm.mkNeg i)) else M.pure (.int i)
+  | .bool b => M.pure (.int (ITerm.mkOfBool b))
+  | .num x => do
+    -- `Arith.abs`: `-x` if `x < 0` else `x`
+    if (← M.branch (.nlt x (.ofInt (.lit 0)))) then M.pure (.num (.neg x)) else M.pure (.num x)
+  | _ => M.fail (.raise "TypeError")
 
 /-- Python's two-argument `max` / `min` (`max(a, b)` is `b` if `b > a` else `a`) -/
-def pyMax (a b : Val K) : M (Val K) := do
-  if (← primLt a b) then pure b else pure a
-def pyMin (a b : Val K) : M (Val K) := do
-  if (← primLt b a) then pure b else pure a
+def pyMax (a b : Val) : M Val := do
+  let c ← liftE (primLt a b)
+  if (← M.branch c) then M.pure b else M.pure a
+def pyMin (a b : Val) : M Val := do
+  let c ← liftE (primLt b a)
+  if (← M.branch c) then M.pure b else M.pure a
 
-def rangeList (n : Nat) : List (Val K) := (List.range n).map (fun (i : Nat) => Val.int (Int.ofNat i))
+def rangeList (n : Nat) : List Val := (List.range n).map (fun (i : Nat) => Val.int (.lit (Int.ofNat i)))
 
 /-- builtins and library functions with a fixed meaning; `none` = not a builtin -/
-def builtin (fn : String) (args : List (Val K)) : Option (M (Val K)) :=
+def builtin (fn : String) (args : List Val) : Option (M Val) :=
   match fn, args with
   | "abs", [v] => some (numAbs v)
   | "max", [a, b] => some (pyMax a b)
   | "min", [a, b] => some (pyMin a b)
-  | "cast", [_, v] => some (pure v)
-  | "len", [.list l] => some (pure (.int l.length))
-  | "len", [.dict ks _] => some (pure (.int ks.length))
-  | "len", [.str s] => some (pure (.int s.length))
-  | "float", [v] => some (match asNum v with | some x => pure (.num x) | Option.none => throw (.raise "TypeError"))
-  | "int", [.int i] => some (pure (.int i))
-  | "int", [.bool b] => some (pure (.int (if b then 1 else 0)))
-  | "bool", [v] => some (pure (.bool (truthy v)))
-  | "list", [.list l] => some (pure (.list l))
-  | "list", [.dict ks _] => some (pure (.list ks))
-  | "range", [.int n] => some (pure (.list (rangeList n.toNat)))
+  | "cast", [_, v] => some (M.pure v)
+  | "len", [.list l] => some (M.pure (.int (.lit l.length)))
+  | "len", [.dict ks _] => some (M.pure (.int (.lit ks.length)))
+  | "len", [.str s] => some (M.pure (.int (.lit s.length)))
+  | "float", [v] => some (match asNum v with | some x => M.pure (.num x) | Option.none => M.fail (.raise "TypeError"))
+  | "int", [.int i] => some (M.pure (.int i))
+  | "int", [.bool b] => some (M.pure (.int (ITerm.mkOfBool b)))
+  | "bool", [v] => some (M.pure (.bool (truthyT v)))
+  | "list", [.list l] => some (M.pure (.list l))
+  | "list", [.dict ks _] => some (M.pure (.list ks))
+  | "range", [.int (.lit n)] => some (M.pure (.list (rangeList n.toNat)))
   | "math.floor", [v] => some (match v with
-      | .num x => pure (.int (PyNum.floor x)) | .int i => pure (.int i) | _ => throw (.raise "TypeError"))
+      | .num x => M.pure (.int (.floor x)) | .int i => M.pure (.int i) | _ => M.fail (.raise "TypeError"))
   | "math.ceil", [v] => some (match v with
-      | .num x => pure (.int (PyNum.ceil x)) | .int i => pure (.int i) | _ => throw (.raise "TypeError"))
-  | "math.exp", [v] => some (match asNum v with | some x => pure (.num (PyNum.exp x)) | Option.none => throw (.raise "TypeError"))
-  | "math.log", [v] => some (match asNum v with | some x => pure (.num (PyNum.log x)) | Option.none => throw (.raise "TypeError"))
-  | "math.sqrt", [v] => some (match asNum v with | some x => pure (.num (PyNum.sqrt x)) | Option.none => throw (.raise "TypeError"))
+      | .num x => M.pure (.int (.ceil x)) | .int i => M.pure (.int i) | _ => M.fail (.raise "TypeError"))
+  | "math.exp", [v] => some (match asNum v with | some x => M.pure (.num (.exp x)) | Option.none => M.fail (.raise "TypeError"))
+  | "math.log", [v] => some (match asNum v with | some x => M.pure (.num (.log x)) | Option.none => M.fail (.raise "TypeError"))
+  | "math.sqrt", [v] => some (match asNum v with | some x => M.pure (.num (.sqrt x)) | Option.none => M.fail (.raise "TypeError"))
   | _, _ => Option.none
 
 /-- methods of container values -/
-def containerMethod (recv : Val K) (m : String) (args : List (Val K)) : Option (M (Val K)) :=
+def containerMethod (recv : Val) (m : String) (args : List Val) : Option (M Val) :=
   match recv, m, args with
-  | .dict _ vs, "values", [] => some (pure (.list vs))
-  | .dict ks _, "keys", [] => some (pure (.list ks))
-  | .dict ks vs, "items", [] => some (pure (.list (zipPairs ks vs)))
+  | .dict _ vs, "values", [] => some (M.pure (.list vs))
+  | .dict ks _, "keys", [] => some (M.pure (.list ks))
+  | .dict ks vs, "items", [] => some (M.pure (.list (zipPairs ks vs)))
   | .dict ks vs, "get", [k] => some (do
-      match (← dictGet k ks vs) with | some v => pure v | Option.none => pure .none)
+      match (← dictGet k ks vs) with | some v => M.pure v | Option.none => M.pure .none)
   | .dict ks vs, "get", [k, d] => some (do
-      match (← dictGet k ks vs) with | some v => pure v | Option.none => pure d)
+      match (← dictGet k ks vs) with | some v => M.pure v | Option.none => M.pure d)
   | _, _, _ => Option.none
 
-def bindParams : List String → List (Option Expr) → List (Val K) → List (String × Val K) →
-    M (Vars K × List (String × Expr))
-  | [], _, [], _ => pure ([], [])
-  | [], _, _ :: _, _ => throw (.raise "TypeError")
-  | p :: ps, ds, a :: as, kws => do
-    let (vs, pend) ← bindParams ps ds.tail as kws
-    pure ((p, a) :: vs, pend)
+def bindParams : List String → List (Option Expr) → List Val → List (String × Val) →
+    Except Err (Vars × List (String × Expr))
+  | [], _, [], _ => .ok ([], [])
+  | [], _, _ :: _, _ => .error (.raise "TypeError")
+  | p :: ps, ds, a :: as, kws =>
+    match bindParams ps ds.tail as kws with
+    | .ok (vs, pend) => .ok ((p, a) :: vs, pend)
+    | .error e => .error e
   | p :: ps, ds, [], kws =>
     match lookupVar p kws with
-    | some v => do
-      let (vs, pend) ← bindParams ps ds.tail [] kws
-      pure ((p, v) :: vs, pend)
+    | some v =>
+      (match bindParams ps ds.tail [] kws with
+       | .ok (vs, pend) => .ok ((p, v) :: vs, pend)
+       | .error e => .error e)
     | Option.none =>
       match ds.head? with
-      | some (some e) => do
-        let (vs, pend) ← bindParams ps ds.tail [] kws
-        pure (vs, (p, e) :: pend)
-      | _ => throw (.raise "TypeError")
+      | some (some e) =>
+        (match bindParams ps ds.tail [] kws with
+         | .ok (vs, pend) => .ok (vs, (p, e) :: pend)
+         | .error e => .error e)
+      | _ => .error (.raise "TypeError")
 
 def dunderOf : CmpOp → Option String
   | .eq => some "__eq__" | .ne => some "__ne__" | .lt => some "__lt__" | .le => some "__le__"
   | .gt => some "__gt__" | .ge => some "__ge__" | _ => Option.none
 
 /-- the translated method `name` of the class of the object `a`, if `a` is an object with one -/
-def userMethod (env : Env K) (st : St K) (a : Val K) (name : Option String) : Option FunDef :=
+def userMethod (env : Env) (st : St) (a : Val) (name : Option String) : Option FunDef :=
   match a, name with
   | .ref addr, some d =>
     (match st.heap addr "__class__" with
@@ -377,46 +605,56 @@ def userMethod (env : Env K) (st : St K) (a : Val K) (name : Option String) : Op
   | _, _ => Option.none
 
 /-- comparison of values without user-defined operators -/
-def primCmp (op : CmpOp) (a b : Val K) : M (Val K) :=
+def primCmp (op : CmpOp) (a b : Val) : M Val :=
   match op with
-  | .eq => do pure (.bool (← primEq a b))
-  | .ne => do pure (.bool (!(← primEq a b)))
-  | .lt => do pure (.bool (← primLt a b))
-  | .le => do pure (.bool (← primLe a b))
-  | .gt => do pure (.bool (← primLt b a))
-  | .ge => do pure (.bool (← primLe b a))
-  | .is => do pure (.bool (← primIs a b))
-  | .isNot => do pure (.bool (!(← primIs a b)))
+  | .eq => do M.pure (.bool (← liftE (primEq a b)))
+  | .ne => do M.pure (.bool (← liftE (primEq a b)).mkNot)
+  | .lt => do M.pure (.bool (← liftE (primLt a b)))
+  | .le => do M.pure (.bool (← liftE (primLe a b)))
+  | .gt => do M.pure (.bool (← liftE (primLt b a)))
+  | .ge => do M.pure (.bool (← liftE (primLe b a)))
+  | .is => do M.pure (.bool (← liftE (primIs a b)))
+  | .isNot => do M.pure (.bool (← liftE (primIs a b)).mkNot)
   | .isIn =>
     (match b with
-     | .list l => do pure (.bool (← memList a l))
-     | .dict ks _ => do pure (.bool (← memList a ks))
-     | _ => throw (.unsupported "in on a non-container"))
+     | .list l => do M.pure (.bool (.lit (← memList a l)))
+     | .dict ks _ => do M.pure (.bool (.lit (← memList a ks)))
+     | _ => M.fail (.unsupported "in on a non-container"))
   | .notIn =>
     (match b with
-     | .list l => do pure (.bool (!(← memList a l)))
-     | .dict ks _ => do pure (.bool (!(← memList a ks)))
-     | _ => throw (.unsupported "in on a non-container"))
+     | .list l => do M.pure (.bool (.lit (!(← memList a l))))
+     | .dict ks _ => do M.pure (.bool (.lit (!(← memList a ks))))
+     | _ => M.fail (.unsupported "in on a non-container"))
+
+/-- an extern call: answered by the oracle and logged -/
+def callExt (env : Env) (recv : Val) (fn : String) (args : List Val) (st : St) : M (Val × St) :=
+  match env.ext st recv fn args with
+  | some (v, st') => M.pure (v, { st' with calls := { recv := recv, fn := fn, args := args } :: st'.calls })
+  | Option.none => M.fail (.unsupported ("extern call without an answer: " ++ fn))
 
 mutual
 
 /-- expression evaluation -/
-def eval (env : Env K) : Nat → Expr → Vars K → St K → M (Val K × St K)
-  | 0, _, _, _ => throw .fuel
+def eval (env : Env) : Nat → Expr → Vars → St → M (Val × St)
+  | 0, _, _, _ => M.fail .fuel
   | n+1, e, vars, st =>
     match e with
-    | .cnone => pure (.none, st)
-    | .cbool b => pure (.bool b, st)
-    | .cint i => pure (.int i, st)
-    | .cflt a b => pure (.num (PyNum.ofInt a / PyNum.ofInt b), st)
-    | .cstr s => pure (.str s, st)
+    | .cnone => M.pure (.none, st)
+    | .cbool b => M.pure (.bool (.lit b), st)
+    | .cint i => M.pure (.int (.lit i), st)
+    | .cflt a b =>
+      -- an integral literal (`0.0`, `2.0`) is that integer as a float; otherwise the quotient, which is
+      -- correctly rounded for numerator and denominator below 2^53 (the translator checks)
+      if b = 1 then M.pure (.num (.ofInt (.lit a)), st)
+      else M.pure (.num (.div (.ofInt (.lit a)) (.ofInt (.lit b))), st)
+    | .cstr s => M.pure (.str s, st)
     | .name x =>
       match lookupVar x vars with
-      | some v => pure (v, st)
+      | some v => M.pure (v, st)
       | Option.none =>
         match env.globals x with
-        | some v => pure (v, st)
-        | Option.none => throw (.unbound x)
+        | some v => M.pure (v, st)
+        | Option.none => M.fail (.unbound x)
     | .attr e a => do
       let (v, st) ← eval env n e vars st
       getAttr env n v a st
@@ -424,46 +662,46 @@ def eval (env : Env K) : Nat → Expr → Vars K → St K → M (Val K × St K)
       let (a, st) ← eval env n l vars st
       let (b, st) ← eval env n r vars st
       let v ← arith op a b
-      pure (v, st)
+      M.pure (v, st)
     | .un .not e => do
       let (a, st) ← eval env n e vars st
-      pure (.bool (!truthy a), st)
+      M.pure (.bool (truthyT a).mkNot, st)
     | .un .neg e => do
       let (a, st) ← eval env n e vars st
       match a with
-      | .int i => pure (.int (-i), st)
-      | .bool b => pure (.int (-(if b then 1 else 0)), st)
-      | .num x => pure (.num (-x), st)
-      | _ => throw (.raise "TypeError")
+      | .int i => M.pure (.int (ITerm.mkNeg i), st)
+      | .bool b => M.pure (.int (ITerm.mkNeg (ITerm.mkOfBool b)), st)
+      | .num x => M.pure (.num (.neg x), st)
+      | _ => M.fail (.raise "TypeError")
     | .and_ l r => do
       let (a, st) ← eval env n l vars st
-      if truthy a then eval env n r vars st else pure (a, st)
+      if (← truthy a) then eval env n r vars st else M.pure (a, st)
     | .or_ l r => do
       let (a, st) ← eval env n l vars st
-      if truthy a then pure (a, st) else eval env n r vars st
+      if (← truthy a) then M.pure (a, st) else eval env n r vars st
     | .cmp op l r => do
       let (a, st) ← eval env n l vars st
       let (b, st) ← eval env n r vars st
       cmpVals env n op a b st
     | .ife c t e => do
       let (a, st) ← eval env n c vars st
-      if truthy a then eval env n t vars st else eval env n e vars st
+      if (← truthy a) then eval env n t vars st else eval env n e vars st
     | .sub e i => do
       let (a, st) ← eval env n e vars st
       let (j, st) ← eval env n i vars st
       match a with
       | .list l =>
-        (match asInt j with
-         | some k => do pure ((← listIndex l k), st)
-         | Option.none => throw (.raise "TypeError"))
+        (match j with
+         | .int (.lit k) => do M.pure ((← listIndex l k), st)
+         | _ => M.fail (.unsupported "symbolic index"))
       | .dict ks vs => do
         match (← dictGet j ks vs) with
-        | some v => pure (v, st)
-        | Option.none => throw (.raise "KeyError")
-      | _ => throw (.unsupported "subscript")
+        | some v => M.pure (v, st)
+        | Option.none => M.fail (.raise "KeyError")
+      | _ => M.fail (.unsupported "subscript")
     | .lst es => do
       let (vs, st) ← evalList env n es vars st
-      pure (.list vs, st)
+      M.pure (.list vs, st)
     | .call f args kwNames kwVals =>
       match f with
       | .name g =>
@@ -472,12 +710,12 @@ def eval (env : Env K) : Nat → Expr → Vars K → St K → M (Val K × St K)
            let (as, st) ← evalList env n args vars st
            let (ks, st) ← evalList env n kwVals vars st
            callFun env n fd as (kwNames.zip ks) vars st
-         | some _ => throw (.unsupported "call of a non-function value")
+         | some _ => M.fail (.unsupported "call of a non-function value")
          | Option.none => do
            let (as, st) ← evalList env n args vars st
            let (ks, st) ← evalList env n kwVals vars st
            match builtin g as with
-           | some r => do pure ((← r), st)
+           | some r => do M.pure ((← r), st)
            | Option.none =>
              match lookupFun g env.prog with
              | some fd => callFun env n fd as (kwNames.zip ks) [] st
@@ -489,7 +727,7 @@ def eval (env : Env K) : Nat → Expr → Vars K → St K → M (Val K × St K)
            let (as, st) ← evalList env n args vars st
            let (ks, st) ← evalList env n kwVals vars st
            match builtin (md ++ "." ++ m) as with
-           | some r => do pure ((← r), st)
+           | some r => do M.pure ((← r), st)
            | Option.none => callExt env .none (md ++ "." ++ m) (as ++ ks) st
          | _, _ => do
            let (rv, st) ← eval env n (.name md) vars st
@@ -501,48 +739,40 @@ def eval (env : Env K) : Nat → Expr → Vars K → St K → M (Val K × St K)
         let (as, st) ← evalList env n args vars st
         let (ks, st) ← evalList env n kwVals vars st
         callMethod env n rv m as (kwNames.zip ks) st
-      | _ => throw (.unsupported "call of a computed callee")
+      | _ => M.fail (.unsupported "call of a computed callee")
 
-def evalList (env : Env K) : Nat → List Expr → Vars K → St K → M (List (Val K) × St K)
-  | 0, _, _, _ => throw .fuel
-  | _+1, [], _, st => pure ([], st)
+def evalList (env : Env) : Nat → List Expr → Vars → St → M (List Val × St)
+  | 0, _, _, _ => M.fail .fuel
+  | _+1, [], _, st => M.pure ([], st)
   | n+1, e :: es, vars, st => do
     let (v, st) ← eval env n e vars st
     let (vs, st) ← evalList env n es vars st
-    pure (v :: vs, st)
+    M.pure (v :: vs, st)
 
 /-- attribute read: a heap field, else a translated property of the object's class -/
-def getAttr (env : Env K) : Nat → Val K → String → St K → M (Val K × St K)
-  | 0, _, _, _ => throw .fuel
+def getAttr (env : Env) : Nat → Val → String → St → M (Val × St)
+  | 0, _, _, _ => M.fail .fuel
   | n+1, v, a, st =>
     match v with
     | .ref addr =>
       match st.heap addr a with
-      | some w => pure (w, st)
+      | some w => M.pure (w, st)
       | Option.none =>
         match st.heap addr "__class__" with
         | some (.str c) =>
           (match lookupFun (c ++ "." ++ a) env.prog with
            | some fd =>
              if fd.isProperty then callFun env n fd [v] [] [] st
-             else throw (.unsupported "bound method as a value")
+             else M.fail (.unsupported "bound method as a value")
            | Option.none => callExt env v ("." ++ a) [] st)
-        | _ => throw (.raise "AttributeError")
-    | _ => throw (.raise "AttributeError")
+        | _ => M.fail (.raise "AttributeError")
+    | _ => M.fail (.raise "AttributeError")
 
-/-- an extern call: answered by the oracle and logged -/
-def callExt (env : Env K) (recv : Val K) (fn : String) (args : List (Val K)) (st : St K) :
-    M (Val K × St K) :=
-  match env.ext st recv fn args with
-  | some (v, st') => pure (v, { st' with calls := { recv := recv, fn := fn, args := args } :: st'.calls })
-  | Option.none => throw (.unsupported ("extern call without an answer: " ++ fn))
-
-def callMethod (env : Env K) : Nat → Val K → String → List (Val K) → List (String × Val K) → St K →
-    M (Val K × St K)
-  | 0, _, _, _, _, _ => throw .fuel
+def callMethod (env : Env) : Nat → Val → String → List Val → List (String × Val) → St → M (Val × St)
+  | 0, _, _, _, _, _ => M.fail .fuel
   | n+1, rv, m, as, kws, st =>
     match containerMethod rv m as with
-    | some r => do pure ((← r), st)
+    | some r => do M.pure ((← r), st)
     | Option.none =>
       match rv with
       | .ref addr =>
@@ -552,26 +782,25 @@ def callMethod (env : Env K) : Nat → Val K → String → List (Val K) → Lis
             | some fd => callFun env n fd (rv :: as) kws [] st
             | Option.none => callExt env rv m (as ++ kws.map (·.2)) st)
          | _ => callExt env rv m (as ++ kws.map (·.2)) st)
-      | _ => throw (.unsupported ("method " ++ m ++ " of a non-object"))
+      | _ => M.fail (.unsupported ("method " ++ m ++ " of a non-object"))
 
 /-- call of a translated function: parameters bound positionally, then by keyword, then defaults
 (evaluated at call time; they are constants in the fragment).  `outer` is the enclosing frame of
 a local closure (read-only: the callee's assignments stay in its own frame). -/
-def callFun (env : Env K) : Nat → FunDef → List (Val K) → List (String × Val K) → Vars K → St K →
-    M (Val K × St K)
-  | 0, _, _, _, _, _ => throw .fuel
+def callFun (env : Env) : Nat → FunDef → List Val → List (String × Val) → Vars → St → M (Val × St)
+  | 0, _, _, _, _, _ => M.fail .fuel
   | n+1, fd, as, kws, outer, st => do
-    let (bound, pend) ← bindParams fd.params fd.defaults as kws
+    let (bound, pend) ← liftE (bindParams fd.params fd.defaults as kws)
     let (dvs, st) ← evalList env n (pend.map (·.2)) [] st
-    let frame : Vars K := bound ++ (pend.map (·.1)).zip dvs ++ outer
+    let frame : Vars := bound ++ (pend.map (·.1)).zip dvs ++ outer
     let (fl, _, st) ← execBlock env n fd.body frame st
     match fl with
-    | .ret v => pure (v, st)
-    | _ => pure (.none, st)
+    | .ret v => M.pure (v, st)
+    | _ => M.pure (.none, st)
 
 /-- comparison operators (user-defined `__eq__`, `__lt__`, … of translated classes are called) -/
-def cmpVals (env : Env K) : Nat → CmpOp → Val K → Val K → St K → M (Val K × St K)
-  | 0, _, _, _, _ => throw .fuel
+def cmpVals (env : Env) : Nat → CmpOp → Val → Val → St → M (Val × St)
+  | 0, _, _, _, _ => M.fail .fuel
   | n+1, op, a, b, st =>
     match userMethod env st a (dunderOf op) with
     | some fd => callFun env n fd [a, b] [] [] st
@@ -582,21 +811,21 @@ def cmpVals (env : Env K) : Nat → CmpOp → Val K → Val K → St K → M (Va
         (match userMethod env st a (some "__eq__") with
          | some fd => do
            let (r, st) ← callFun env n fd [a, b] [] [] st
-           pure (.bool (!truthy r), st)
-         | Option.none => do pure ((← primCmp op a b), st))
-      | _ => do pure ((← primCmp op a b), st)
+           M.pure (.bool (truthyT r).mkNot, st)
+         | Option.none => do M.pure ((← primCmp op a b), st))
+      | _ => do M.pure ((← primCmp op a b), st)
 
 /-- store into an assignment target -/
-def store (env : Env K) : Nat → Expr → Val K → Vars K → St K → M (Vars K × St K)
-  | 0, _, _, _, _ => throw .fuel
+def store (env : Env) : Nat → Expr → Val → Vars → St → M (Vars × St)
+  | 0, _, _, _, _ => M.fail .fuel
   | n+1, target, v, vars, st =>
     match target with
-    | .name x => pure (setVar x v vars, st)
+    | .name x => M.pure (setVar x v vars, st)
     | .attr e a => do
       let (o, st) ← eval env n e vars st
       match o with
-      | .ref addr => pure (vars, st.set addr a v)
-      | _ => throw (.raise "AttributeError")
+      | .ref addr => M.pure (vars, st.set addr a v)
+      | _ => M.fail (.raise "AttributeError")
     | .sub c k => do
       let (cv, st) ← eval env n c vars st
       let (kv, st) ← eval env n k vars st
@@ -604,100 +833,104 @@ def store (env : Env K) : Nat → Expr → Val K → Vars K → St K → M (Vars
       | .dict ks vs => do
         let (ks', vs') ← dictSet kv v ks vs
         store env n c (.dict ks' vs') vars st
-      | _ => throw (.unsupported "item assignment on a non-dict")
+      | _ => M.fail (.unsupported "item assignment on a non-dict")
     | .lst ts =>
       match v with
       | .list vs => storeAll env n ts vs vars st
-      | _ => throw (.raise "TypeError")
-    | _ => throw (.unsupported "assignment target")
+      | _ => M.fail (.raise "TypeError")
+    | _ => M.fail (.unsupported "assignment target")
 
-def storeAll (env : Env K) : Nat → List Expr → List (Val K) → Vars K → St K → M (Vars K × St K)
-  | 0, _, _, _, _ => throw .fuel
-  | _+1, [], [], vars, st => pure (vars, st)
+def storeAll (env : Env) : Nat → List Expr → List Val → Vars → St → M (Vars × St)
+  | 0, _, _, _, _ => M.fail .fuel
+  | _+1, [], [], vars, st => M.pure (vars, st)
   | n+1, t :: ts, v :: vs, vars, st => do
     let (vars, st) ← store env n t v vars st
     storeAll env n ts vs vars st
-  | _+1, _, _, _, _ => throw (.raise "ValueError")
+  | _+1, _, _, _, _ => M.fail (.raise "ValueError")
 
-def exec (env : Env K) : Nat → Stmt → Vars K → St K → M (Flow K × Vars K × St K)
-  | 0, _, _, _ => throw .fuel
+def exec (env : Env) : Nat → Stmt → Vars → St → M (Flow × Vars × St)
+  | 0, _, _, _ => M.fail .fuel
   | n+1, s, vars, st =>
     match s with
     | .expr e => do
       let (_, st) ← eval env n e vars st
-      pure (.normal, vars, st)
+      M.pure (.normal, vars, st)
     | .assign t e => do
       let (v, st) ← eval env n e vars st
       let (vars, st) ← store env n t v vars st
-      pure (.normal, vars, st)
+      M.pure (.normal, vars, st)
     | .aug t op e => do
       let (a, st) ← eval env n t vars st
       let (b, st) ← eval env n e vars st
       let v ← arith op a b
       let (vars, st) ← store env n t v vars st
-      pure (.normal, vars, st)
+      M.pure (.normal, vars, st)
     | .ifs c t e => do
       let (a, st) ← eval env n c vars st
-      if truthy a then execBlock env n t vars st else execBlock env n e vars st
+      if (← truthy a) then execBlock env n t vars st else execBlock env n e vars st
     | .ret e => do
       let (v, st) ← eval env n e vars st
-      pure (.ret v, vars, st)
-    | .raise exc => throw (.raise exc)
+      M.pure (.ret v, vars, st)
+    | .raise exc => M.fail (.raise exc)
     | .assert_ c => do
       let (a, st) ← eval env n c vars st
-      if truthy a then pure (.normal, vars, st) else throw (.raise "AssertionError")
+      if (← truthy a) then M.pure (.normal, vars, st) else M.fail (.raise "AssertionError")
     | .for_ t it body => do
       let (a, st) ← eval env n it vars st
       match a with
       | .list l => execFor env n t l body vars st
       | .dict ks _ => execFor env n t ks body vars st
-      | _ => throw (.raise "TypeError")
+      | _ => M.fail (.raise "TypeError")
     | .while_ c body => execWhile env n c body vars st
     | .def_ name params defaults body =>
-      pure (.normal, setVar name (.clo { params := params, defaults := defaults, body := body }) vars, st)
-    | .continue_ => pure (.cont, vars, st)
-    | .break_ => pure (.brk, vars, st)
-    | .pass => pure (.normal, vars, st)
+      M.pure (.normal, setVar name (.clo { params := params, defaults := defaults, body := body }) vars, st)
+    | .continue_ => M.pure (.cont, vars, st)
+    | .break_ => M.pure (.brk, vars, st)
+    | .pass => M.pure (.normal, vars, st)
 
-def execBlock (env : Env K) : Nat → List Stmt → Vars K → St K → M (Flow K × Vars K × St K)
-  | 0, _, _, _ => throw .fuel
-  | _+1, [], vars, st => pure (.normal, vars, st)
+def execBlock (env : Env) : Nat → List Stmt → Vars → St → M (Flow × Vars × St)
+  | 0, _, _, _ => M.fail .fuel
+  | _+1, [], vars, st => M.pure (.normal, vars, st)
   | n+1, s :: ss, vars, st => do
     let (fl, vars, st) ← exec env n s vars st
     match fl with
     | .normal => execBlock env n ss vars st
-    | other => pure (other, vars, st)
+    | other => M.pure (other, vars, st)
 
-def execFor (env : Env K) : Nat → Expr → List (Val K) → List Stmt → Vars K → St K →
-    M (Flow K × Vars K × St K)
-  | 0, _, _, _, _, _ => throw .fuel
-  | _+1, _, [], _, vars, st => pure (.normal, vars, st)
+def execFor (env : Env) : Nat → Expr → List Val → List Stmt → Vars → St → M (Flow × Vars × St)
+  | 0, _, _, _, _, _ => M.fail .fuel
+  | _+1, _, [], _, vars, st => M.pure (.normal, vars, st)
   | n+1, t, x :: xs, body, vars, st => do
     let (vars, st) ← store env n t x vars st
     let (fl, vars, st) ← execBlock env n body vars st
     match fl with
-    | .brk => pure (.normal, vars, st)
-    | .ret v => pure (.ret v, vars, st)
+    | .brk => M.pure (.normal, vars, st)
+    | .ret v => M.pure (.ret v, vars, st)
     | _ => execFor env n t xs body vars st
 
-def execWhile (env : Env K) : Nat → Expr → List Stmt → Vars K → St K → M (Flow K × Vars K × St K)
-  | 0, _, _, _, _ => throw .fuel
+def execWhile (env : Env) : Nat → Expr → List Stmt → Vars → St → M (Flow × Vars × St)
+  | 0, _, _, _, _ => M.fail .fuel
   | n+1, c, body, vars, st => do
     let (a, st) ← eval env n c vars st
-    if truthy a then do
+    if (← truthy a) then do
       let (fl, vars, st) ← execBlock env n body vars st
       match fl with
-      | .brk => pure (.normal, vars, st)
-      | .ret v => pure (.ret v, vars, st)
+      | .brk => M.pure (.normal, vars, st)
+      | .ret v => M.pure (.ret v, vars, st)
       | _ => execWhile env n c body vars st
-    else pure (.normal, vars, st)
+    else M.pure (.normal, vars, st)
 
 end
 
 /-- run a translated function by qualified name -/
-def run (env : Env K) (fuel : Nat) (fn : String) (args : List (Val K)) (st : St K) : M (Val K × St K) :=
+def run (env : Env) (fuel : Nat) (fn : String) (args : List Val) (st : St) : M (Val × St) :=
   match lookupFun fn env.prog with
   | some fd => callFun env fuel fd args [] [] st
-  | Option.none => throw (.unbound fn)
+  | Option.none => M.fail (.unbound fn)
+
+/-- the meaning of a run under a valuation of the atoms -/
+def sem {K : Type} [PyNum K] (ρ : Rho K) (env : Env) (fuel : Nat) (fn : String) (args : List Val)
+    (st : St) : Except Err (Val × St) :=
+  Tree.denote ρ (run env fuel fn args st)
 
 end Pams.Py
